@@ -409,7 +409,7 @@ fn flat_program(kind: usize, n: usize) -> String {
 }
 
 fn flat_cases(thorough: bool) -> Vec<(usize, usize)> {
-    let sizes: &[usize] = if thorough { &[1000, 3000, 10_000, 30_000, 100_000] } else { &[1000, 3000, 10_000] };
+    let sizes: &[usize] = if thorough { &[1000, 3000, 6000, 10_000, 20_000] } else { &[1000, 3000, 6000] };
     let mut v = Vec::new();
     for kind in 0..3 {
         for n in sizes {
@@ -478,6 +478,10 @@ impl Engine for C12 {
             p_numbers(),
         ));
         v.push(Phase::new(
+            "ordered pairs of generated expressions of <= 2 constructors side by side, unparenthesised, in six list positions",
+            p_pairs(),
+        ));
+        v.push(Phase::new(
             "syntactically valid programs: kind-agnostic expressions of <= 2 constructors x 28 contexts",
             json!({"space": "programs", "k": 2}),
         ));
@@ -492,7 +496,7 @@ impl Engine for C12 {
             ));
         }
         v.push(Phase::new(
-            "nesting families, depths 1..=200, each family one case; flat programs of 1000..10000 (thorough 100000) statements in three shapes",
+            "nesting families, depths 1..=200, each family one case; flat programs of 1000..6000 (thorough 20000) statements in three shapes",
             json!({"space": "families", "thorough": thorough}),
         ));
         v
@@ -580,6 +584,10 @@ impl Engine for C12 {
     }
     fn rule(&self) -> String {
         "token lists: every sequence of <= L tokens over the full alphabet (54) and of L+1..=L' over the reduced grammar alphabet, the corpus and all its 1-deviation token mutants, 40 nesting / chain / digit families (closed, unclosed and mismatched brackets). Each list is parsed by parse_program through Context::new(tokens) and Context::new(tokens).without_cache() (the latter only when the static nesting weight is <= 6, the uncached parser being exponential in it): identical pre-order dump (depth, node kind / token kind, span) and error list; with the memo table reads <= 64·n + 64; per family reads(d), d = 1..=200 (chains also 1000 and 10000, thorough 500..10000), has constant first differences. states = memoised (cursor, production) pairs, transitions = token reads with the memo table, both summed over all cases (hook Context::verif_counters); a family counts as one case".into()
+    }
+    fn case_budget_ms(&self) -> u64 {
+        // the flat programs take seconds on a busy machine
+        60_000
     }
     fn crash_signature(&self, kind: &str, _case: &Value) -> String {
         format!("{kind} | parser with and without memo table in-process | worker process died or stalled on one case")
